@@ -5,6 +5,7 @@ package main
 // formatting of integers/strings with constant formats.
 
 import (
+	"net/textproto"
 	"fmt"
 	"go/constant"
 	"go/types"
@@ -38,9 +39,55 @@ func init() {
 		e := x.freshVal(st, "werr", errT)
 		return Val{Tup: []Val{n, e}}, true
 	}
+	// A header map that is not the ghost response's is an ordinary Go map
+	// (http.Header is map[string][]string): Set stores the one-element list
+	// under the canonical key, Get reads the first element, Del removes.
+	hdrMap := func(x *Exec, st *State, T types.Type) (hk, hs, vk, vs string, ok bool) {
+		mt, isMap := T.Underlying().(*types.Map)
+		if !isMap || x.te.StrSort != "String" {
+			return "", "", "", "", false
+		}
+		x.te.SortOf(mt.Elem())
+		hk, hs, vk, vs = x.mapComps(mt)
+		return hk, hs, vk, vs, true
+	}
+	canonKey := func(x *Exec, st *State, v ssa.Value, t Term) Term {
+		if c, ok := v.(*ssa.Const); ok && c.Value != nil && c.Value.Kind() == constant.String {
+			return StrLit(textproto.CanonicalMIMEHeaderKey(constant.StringVal(c.Value)))
+		}
+		x.d.DeclareFun("hdrCanon", "(declare-fun hdrCanon (String) String)")
+		return mk("String", "hdrCanon", t)
+	}
+	libTable["(net/http.Header).Del"] = func(x *Exec, fr *Frame, st *State, cc *ssa.CallCommon, a []Val) (Val, bool) {
+		if a[0].Org == "resp-header" {
+			return Val{}, false
+		}
+		hk, hs, _, _, ok := hdrMap(x, st, cc.Args[0].Type())
+		if !ok {
+			return Val{}, false
+		}
+		has := x.heapGet(st, hk, hs)
+		k := canonKey(x, st, cc.Args[1], a[1].T)
+		st.heap[hk] = Ite(Eq(a[0].T, IntLit(0)), has, Store(has, a[0].T, Store(Select(has, a[0].T), k, False)))
+		x.funcsUsed["lib:net/http.Header Set/Get/Del on a request's header map (map[string][]string semantics with canonical keys)"] = true
+		return Val{}, true
+	}
 	libTable["(net/http.Header).Set"] = func(x *Exec, fr *Frame, st *State, cc *ssa.CallCommon, a []Val) (Val, bool) {
 		if a[0].Org != "resp-header" {
-			// some other header map (a request being built): opaque
+			hk, hs, vk, vs, ok := hdrMap(x, st, cc.Args[0].Type())
+			if !ok {
+				return Val{}, true
+			}
+			x.oblige(st, "SAFE", "nil-map-write("+x.posText(cc.Pos())+")", Not(Eq(a[0].T, IntLit(0))), "assignment to entry in nil map")
+			st.assume(Not(Eq(a[0].T, IntLit(0))))
+			has := x.heapGet(st, hk, hs)
+			val := x.heapGet(st, vk, vs)
+			k := canonKey(x, st, cc.Args[1], a[1].T)
+			elemT := cc.Args[0].Type().Underlying().(*types.Map).Elem()
+			one := x.te.SliceMake(elemT, Store(constArray("Int", StrLit("")), IntLit(0), a[2].T), IntLit(1), IntLit(1), False)
+			st.heap[hk] = Store(has, a[0].T, Store(Select(has, a[0].T), k, True))
+			st.heap[vk] = Store(val, a[0].T, Store(Select(val, a[0].T), k, one))
+			x.funcsUsed["lib:net/http.Header Set/Get/Del on a request's header map (map[string][]string semantics with canonical keys)"] = true
 			return Val{}, true
 		}
 		key := ""
@@ -50,8 +97,40 @@ func init() {
 		st.resp = append(st.resp, RespEvent{Kind: "header", Key: key, KeyT: a[1].T, Val: a[2].T})
 		return Val{}, true
 	}
-	libTable["(net/http.Header).Add"] = libTable["(net/http.Header).Set"]
+	respSet := libTable["(net/http.Header).Set"]
+	libTable["(net/http.Header).Add"] = func(x *Exec, fr *Frame, st *State, cc *ssa.CallCommon, a []Val) (Val, bool) {
+		if a[0].Org == "resp-header" {
+			return respSet(x, fr, st, cc, a)
+		}
+		// appending to a request header's list is not modelled: the entry becomes unknown
+		hk, hs, vk, vs, ok := hdrMap(x, st, cc.Args[0].Type())
+		if !ok {
+			return Val{}, true
+		}
+		st.assume(Not(Eq(a[0].T, IntLit(0))))
+		has := x.heapGet(st, hk, hs)
+		val := x.heapGet(st, vk, vs)
+		k := canonKey(x, st, cc.Args[1], a[1].T)
+		elemT := cc.Args[0].Type().Underlying().(*types.Map).Elem()
+		nv := x.freshVal(st, "hdr_added", elemT)
+		st.assume(Ge(sliceLen(nv.T), IntLit(1)))
+		st.heap[hk] = Store(has, a[0].T, Store(Select(has, a[0].T), k, True))
+		st.heap[vk] = Store(val, a[0].T, Store(Select(val, a[0].T), k, nv.T))
+		return Val{}, true
+	}
 	libTable["(net/http.Header).Get"] = func(x *Exec, fr *Frame, st *State, cc *ssa.CallCommon, a []Val) (Val, bool) {
+		if a[0].Org != "resp-header" {
+			if hk, hs, vk, vs, ok := hdrMap(x, st, cc.Args[0].Type()); ok {
+				has := x.heapGet(st, hk, hs)
+				val := x.heapGet(st, vk, vs)
+				k := canonKey(x, st, cc.Args[1], a[1].T)
+				present := And(Not(Eq(a[0].T, IntLit(0))), Select(Select(has, a[0].T), k))
+				lst := Select(Select(val, a[0].T), k)
+				r := Ite(And(present, Gt(sliceLen(lst), IntLit(0))), Select(sliceArr(lst), IntLit(0)), StrLit(""))
+				x.funcsUsed["lib:net/http.Header Set/Get/Del on a request's header map (map[string][]string semantics with canonical keys)"] = true
+				return Val{T: x.nameTerm(st, "hdrget", r), Typ: strT}, true
+			}
+		}
 		return x.uninterp(st, "hdrGet", []Val{a[0], a[1]}, strT), true
 	}
 	libTable["net/http.Redirect"] = func(x *Exec, fr *Frame, st *State, cc *ssa.CallCommon, a []Val) (Val, bool) {
@@ -62,10 +141,11 @@ func init() {
 	libTable["io.Copy"] = func(x *Exec, fr *Frame, st *State, cc *ssa.CallCommon, a []Val) (Val, bool) {
 		// the bytes the source yields are appended to the destination; the
 		// source is foreign code with its own state only
-		st.resp = append(st.resp, RespEvent{Kind: "bodycopy", Val: a[1].T})
+		st.resp = append(st.resp, RespEvent{Kind: "bodycopy", KeyT: a[0].T, Val: a[1].T})
 		n := x.freshVal(st, "copied", types.Typ[types.Int64])
 		st.assume(Ge(n.T, IntLit(0)))
 		e := x.freshVal(st, "cerr", errT)
+		st.ghost["copyerr"] = e.T
 		x.funcsUsed["lib:io.Copy (relays the source's bytes; no effect on the verified package's memory)"] = true
 		return Val{Tup: []Val{n, e}}, true
 	}
